@@ -49,6 +49,20 @@ CLAIMED = {
          "and the Top-versus-absent parsing of the Debug rendering are unverified but only checked by the verified part; the completion "
          "clause is tested, not proved.",
     technique="Lean 4 kernel-proved certificate checker run on the real analysis output"),
+ "C08": dict(
+    category="proof",
+    text="Lean 4 theorems about a mirror model of lib/memory/paged.rs (V = il::Constant through value.rs): a representation invariant "
+         "preserved by every store; store = write of the value's bytes into the denoted byte array for every overlap and page-crossing "
+         "pattern; load = endian read of that array for every positive multiple-of-8 width (fast path and byte loop), none iff a byte is "
+         "absent, never an error; by induction every finite store/load/set_permissions history from new/new_with_backing (also over "
+         "several handles with clones, in the model) answers what the byte array answers; eq reflexive and implies identical loads and "
+         "permissions; permission range, frame and default theorems. Tied to the code by a three-way per-operation differential run "
+         "(falcon / model / byte-array spec) on every check, including Memory<Expression> histories compared after evaluation.",
+    design_ref="DESIGN.md §6 C08",
+    note="Trusted: Lean kernel; axioms propext, Classical.choice, Quot.sound; harness, driver and diff. Copy-on-write sharing "
+         "(RC::make_mut) is not modelled: clone independence is a model-level theorem plus a correspondence check over interleaved "
+         "multi-handle histories. V = Expression is correspondence-only. Widths below 2^63 bits.",
+    technique="Lean 4 proof of a mirror model (invariant + refinement to a byte array) + differential correspondence check"),
 }
 
 checks = []
